@@ -107,6 +107,8 @@ pub enum PadSig {
     Valid,
     /// validly signed, other data than `Valid` for the same counter
     ValidOther,
+    /// signed by the owner like `Valid`; `data_encoding` (not covered by the signature) changed afterwards
+    ValidEnc,
     Wrong,
     Missing,
 }
@@ -167,6 +169,7 @@ pub fn parse_content(s: &str) -> Option<DContent> {
             let sig = match p[2] {
                 "v" => PadSig::Valid,
                 "d" => PadSig::ValidOther,
+                "e" => PadSig::ValidEnc,
                 "w" => PadSig::Wrong,
                 "n" => PadSig::Missing,
                 _ => return None,
@@ -255,6 +258,9 @@ struct PadMirror {
     signature: Option<bls::Signature>,
 }
 
+/// the `data_encoding` every owner of this universe has in the scratchpads it signs
+pub const OWNER_ENC: u64 = 7;
+
 pub fn pad_data(owner: u64, n: u64) -> Bytes {
     Bytes::from(format!("verif-pad-{owner}-{n}").into_bytes())
 }
@@ -265,13 +271,13 @@ pub fn build_pad(owner: u64, n: u64, sig: &PadSig) -> Scratchpad {
     let mut to_sign = n.to_be_bytes().to_vec();
     to_sign.extend_from_slice(&sha3(&data));
     let signature = match sig {
-        PadSig::Valid | PadSig::ValidOther => Some(sk.sign(&to_sign)),
+        PadSig::Valid | PadSig::ValidOther | PadSig::ValidEnc => Some(sk.sign(&to_sign)),
         PadSig::Wrong => Some(bls_sk(STRANGER).sign(&to_sign)),
         PadSig::Missing => None,
     };
     let m = PadMirror {
         address: ScratchpadAddress::new(sk.public_key()),
-        data_encoding: 7,
+        data_encoding: if *sig == PadSig::ValidEnc { OWNER_ENC + 1 } else { OWNER_ENC },
         encrypted_data: data,
         counter: n,
         signature,
@@ -518,7 +524,10 @@ pub fn describe(key: &RecordKey, rec: &Record) -> String {
                 // independent validity: signature by the owner named in the address over counter ++ sha3(data)
                 let enc = rmp_serde::to_vec(&p).unwrap_or_default();
                 let sig_ok = pad_signature(&enc).map(|s| p.owner().verify(&s, &to_sign)).unwrap_or(false);
-                format!("S{}{}", p.count(), if sig_ok { "" } else { "i" })
+                // `e`: the owner's signature verifies, but a stored field it does not cover (`data_encoding`) is
+                // not what the owner had in the scratchpad it signed
+                let enc_ok = p.data_encoding() == OWNER_ENC;
+                format!("S{}{}", p.count(), if !sig_ok { "i" } else if !enc_ok { "e" } else { "" })
             }
             Err(_) => "?pad".into(),
         },
